@@ -121,7 +121,8 @@ impl TryFrom<FeelTime> for DateTime<FixedOffset> {
 
 impl FeelTime {
   pub fn new_hmso_opt(hour: u8, minute: u8, second: u8, nano: u64, offset: i32) -> Option<Self> {
-    if is_valid_time(hour, minute, second) {
+    // the offset is limited to what a time literal can express: at most 14 hours, 59 minutes and 59 seconds
+    if is_valid_time(hour, minute, second) && (-53_999..=53_999).contains(&offset) {
       Some(Self(hour, minute, second, nano, FeelZone::new(offset)))
     } else {
       None
